@@ -505,7 +505,54 @@ def r6(ctx):
         ctx.bad('key case', 'case', f'`TEXT={{Ab Cd}} Color=Red` is lexed as {show(got, 120)}', lex.loc())
 
 
+SHAPE_LINE_PROBES = [
+    ('circle', 'circle(1,2,3) # color=red text={a # b}', "['1,2,3', 'color=red text={a # b}']", 'only the first # separates the metadata'),
+    ('text', '# text(1,2) text={hi}', "['1,2', 'text={hi}']", 'the "# text(...)" form DS9 itself writes'),
+    ('circle', 'circle 1 2 3', "['1 2 3', '']", 'parentheses and commas are optional'),
+    ('text', 'text(1,2) # text={hi}', "['1,2', 'text={hi}']", 'ordinary text region'),
+    ('box', '-box(1,2,3,4,0) ||', "['1,2,3,4,0', '']", 'composite continuation marker is not a parameter'),
+    ('circle', 'Circle( 1 , 2 , 3 ) #COLOR=Red', "[' 1 , 2 , 3 ', 'COLOR=Red']", 'case of the metadata is kept'),
+]
+
+
+def r7(ctx):
+    """splitting a shape line into its parameter string and its metadata string (partial evaluation on probe lines; the
+    span is what the reader's own shape regex gives on the lower-cased line)."""
+    import re as _re
+    m = ctx.model
+    par, make, lexers, raw, rmod = ds9.reader_funcs(m)
+    f = rmod.functions.get('_parse_shape_line')
+    ctx.need(f is not None and raw is not None, 'ds9 read', 'shape-line splitter not found')
+    pat = None
+    for c in calls_in(raw.node):
+        if (call_name(c) or '') in ('re.compile', 'compile') and c.args and isinstance(c.args[0], ast.Constant) \
+                and 'a-zA-Z' in str(c.args[0].value):
+            pat = c.args[0].value
+    ctx.need(pat is not None, raw.qualname, 'frame-or-shape pattern not found')
+    rx = _re.compile(pat)
+    bad = []
+    for shape, line, want, why in SHAPE_LINE_PROBES:
+        mm = rx.search(line.lower())
+        if mm is None or mm.groups()[1] != shape:
+            bad.append((line, f'shape pattern finds {mm.groups() if mm else None}', want, why))
+            continue
+        lo, hi = mm.span()
+        out = Evaluator(m).run(f, [Const(shape), Const(line), Tup((sp.Integer(lo), sp.Integer(hi)), 'tuple')], {})
+        got = show(out.returns[0][1], 200) if len(out.returns) == 1 and not out.raises else \
+            f'{len(out.returns)} outcomes, raises {[n for _, n, _ in out.raises]}'
+        if got != want:
+            bad.append((line, got, want, why))
+    name = f.qualname.split(':')[1]
+    if bad:
+        line, got, want, why = bad[0]
+        ctx.bad(name, 'shape-line', f'`{line}` is split into {got}; expected {want} ({why}) — {len(bad)} of '
+                f'{len(SHAPE_LINE_PROBES)} probe lines differ', f.loc())
+    else:
+        ctx.ok(name, f'{len(SHAPE_LINE_PROBES)} probe lines split into (parameters, metadata) as DS9 defines')
+
+
 RULES = [
+    RuleDef('R7', 'shape line -> (parameter string, metadata string) on probe lines', r7, 1),
     RuleDef('R1', 'no region without a frame; frame state persistence', r1, 2),
     RuleDef('R1b', 'unsupported frame keywords all clear the active frame (keyword partition)', r1b, 3),
     RuleDef('R2', 'metadata precedence; sign-derived include', r2, 2),
